@@ -225,10 +225,12 @@ example :
 /-- the hypotheses of the theorem hold for it -/
 example : SrcOk sEx := by simp [sEx, SrcOk, SrcArgsOk]; decide
 
-/-- `int3 v0; bool3 v1;` -/
-def ΓVec : Env := { vars := [⟨{}, .vector .int32 3⟩, ⟨{}, .vector .bool 3⟩], funcs := [] }
+/-- `int3 v0; bool3 v1; bool v2;` -/
+def ΓVec : Env := { vars := [⟨{}, .vector .int32 3⟩, ⟨{}, .vector .bool 3⟩, ⟨{}, .scalar .bool⟩], funcs := [] }
 
-/-- non-vacuity on the class fix 40c6233 made exportable (vector / matrix operations with a literal operand: the
+/-- non-vacuity on the class fixes 40c6233 / c05bffa made exportable (vector / matrix operations and conditional
+    expressions with a literal operand / arm: `v2 ? v0 : 1.5` is `Tern(v2, Cast(float3, v0), Cast(float3, FloatLiteral))`,
+    exported `v2 ? (float3)v0 : (float3)1.5`; the
     working type used to be a vector of `IntLiteral` / `FloatLiteral`, which no exporter can name): `v1 + 1` elaborates
     to `Add(Cast(int3, v1), Cast(int3, IntLiteral 1))`, `v0 * 1.5` to `Mul(Cast(float3, v0), Cast(float3, FloatLiteral))`;
     the exports `(int3)v1 + (int3)1` / `(float3)v0 * (float3)1.5` are accepted and elaborate to a tree of the same
@@ -238,6 +240,16 @@ example :
     ((match elabE true ΓVec (.bin .add (.var 1) (.lit .intLiteral)) with
       | .ok (i, τ) =>
         decide (τ = ⟨⟨{}, .vector .int32 3⟩, .rvalue⟩) &&
+        (match unelab (uniqueNames ΓVec) i with
+         | some s' =>
+           (match elabE true (uniqueNames ΓVec) s' with
+            | .ok (_, τ') => decide (τ' = τ)
+            | .error _ => false)
+         | none => false)
+      | .error _ => false) &&
+     (match elabE true ΓVec (.tern (.var 2) (.var 0) (.lit .floatLiteral)) with
+      | .ok (i, τ) =>
+        decide (τ = ⟨⟨{}, .vector .float32 3⟩, .rvalue⟩) &&
         (match unelab (uniqueNames ΓVec) i with
          | some s' =>
            (match elabE true (uniqueNames ΓVec) s' with
